@@ -46,6 +46,16 @@ def cases(tier, seed):
     for j, ws in enumerate(wides if tier != 'quick' else wides[:5]):
         for name in ('cpa', 'cpa_alt', 'dpa'):
             out.append(dict(gen='stat', subject=name, precision=['float32', 'float64'][j % 2], regime='E', degen='none', wide=list(ws), sub=core.subseed('C03w', seed, name, j), must=True))
+    # intermediate values that are fractions in [0, 1] (a model scaled by a power of two): every sum stays exact
+    for name in ('cpa', 'cpa_alt'):
+        for prec in ('float32', 'float64'):
+            out.append(dict(gen='stat', subject=name, precision=prec, regime='E', degen=['none', 'const_word'][k % 2], frac=True, sub=core.subseed('C03f', seed, k), must=True))
+            k += 1
+    # integer inputs whose sums are NOT exact in the precision (16-bit samples, thousands of traces) and one constant word: that row is NaN
+    for name in ('cpa', 'cpa_alt', 'dpa'):
+        for prec in ('float32', 'float64'):
+            out.append(dict(gen='stat', subject=name, precision=prec, regime='R', degen='none', intconst=True, sub=core.subseed('C03ic', seed, k), must=True))
+            k += 1
     rs = np.random.default_rng(core.subseed('C03r', seed))
     n_rand = 4000 if tier == 'quick' else 60000
     for j in range(n_rand):
@@ -53,6 +63,9 @@ def cases(tier, seed):
         out.append(dict(gen='stat', subject=['cpa', 'cpa_alt', 'dpa'][int(rs.integers(3))], precision=['float32', 'float64'][int(rs.integers(2))],
                         regime=regime, degen=['none', 'none', 'const_sample', 'const_word', 'both'][int(rs.integers(5))] if regime == 'E' else 'none',
                         sub=int(rs.integers(2 ** 62))))
+        if j % 25 == 0:
+            out.append(dict(gen='stat', subject=['cpa', 'cpa_alt', 'dpa'][int(rs.integers(3))], precision=['float32', 'float64'][int(rs.integers(2))], regime='R', degen='none', intconst=True,
+                            sub=int(rs.integers(2 ** 62))))
     return out
 
 
@@ -81,9 +94,23 @@ def run_case(case):
         if regime == 'E':
             ymax = max(1, min(ymax, math.isqrt(L // (n * n)))) if not big else max(1, min(3, math.isqrt(L // n)))
         ddt = ['uint8', 'uint16', 'int16', 'uint32', 'int64', 'float32', 'float64'][int(rng.integers(7))]
+    intconst = bool(case.get('intconst'))
+    if intconst:
+        n, T = int(rng.choice([3000, 4096, 5000])), int(rng.integers(1, 4))
+        ws = [(3,), (2, 2), (5,)][int(rng.integers(3))]
+        W = gen.word_count(ws)
+        ymax = 1 if name == 'dpa' else int(rng.choice([4, 8]))
+        ddt = 'uint8'
+        t.count('inexact_integer_sums_with_constant_word')
+    if case.get('frac'):
+        ddt = ['float32', 'float64'][int(rng.integers(2))]
     data = rng.integers(0, ymax + 1, gen.data_shape(n, ws))
     if name != 'dpa' and rng.random() < 0.3 and np.dtype(ddt).kind in 'if':
         data = data - int(rng.integers(0, ymax + 1))              # signed intermediate values
+    if name != 'dpa' and np.dtype(ddt).kind == 'f' and (case.get('frac') or rng.random() < 0.3):
+        # a model normalised to [0, 1] (e.g. Hamming weight / 8): division by a power of two keeps every product and sum exact
+        data = data / float(2 ** int(np.ceil(np.log2(max(1, int(np.abs(data).max()))))))
+        t.count('fractional_intermediate_values')
     tdtype = gen.TRACE_DTYPES[int(rng.integers(len(gen.TRACE_DTYPES)))]
     if regime == 'E':
         X = gen.exact_bound(n, prec, ymax=max(1, int(np.abs(data).max())), mode='full')
@@ -95,6 +122,9 @@ def run_case(case):
             n = min(n, math.isqrt(L))
             data = data[:n]
         traces = gen.int_traces(rng, n, T, tdtype, X)
+    elif intconst:
+        tdtype = 'uint16'
+        traces = rng.integers(0, 65536, (n, T)).astype('uint16')
     else:
         if tdtype not in gen.TRACE_DTYPES_FLOAT:
             tdtype = gen.TRACE_DTYPES_FLOAT[int(rng.integers(2))]
@@ -104,9 +134,11 @@ def run_case(case):
         cols = rng.random(T) < 0.4
         cols[int(rng.integers(T))] = True
         traces[:, cols] = traces[0, cols]
-    if degen in ('const_word', 'both'):
+    const_rows = []
+    if degen in ('const_word', 'both') or intconst:
         w = int(rng.integers(W))
-        d2[:, w] = d2[0, w] if name != 'dpa' else int(rng.integers(2))
+        d2[:, w] = (d2[0, w] if not intconst else int(rng.integers(2, ymax + 1))) if name != 'dpa' else int(rng.integers(2))
+        const_rows = [w]
     data = gen.layout_nd(rng, d2.reshape(data.shape).astype(ddt))
     t.count('data_layout:' + ('C' if data.flags.c_contiguous else 'F' if data.flags.f_contiguous else 'strided'))
     traces = gen.layout(rng, traces)
@@ -163,6 +195,12 @@ def run_case(case):
                                                                       expected=float(val[tuple(np.argwhere(bad)[0])])))
     else:
         t.count('nan_entries_expected', 0)
+        if intconst:
+            # integer-valued inputs: the row of the constant word is undefined whatever the rounding of the sums over the traces
+            t.count('nan_entries_expected', T)
+            bad = np.zeros_like(undef)
+            bad[const_rows] = ~np.isnan(got2[const_rows])
+            t.check(bool(undef[const_rows].all()) and not bad.any(), 'undefined_entry_not_nan', lambda: dict(info, constant_word=const_rows, got=got2[const_rows].tolist()))
         decid &= np.isfinite(got2)
     t.count('entries_compared', int(decid.sum()))
     if decid.any():
